@@ -226,6 +226,7 @@ func randomPGP(r *rng, kdfExtra []byte) pgpBuilt {
 }
 
 func genC12(tier string, r *rng) {
+	genPgpFrames(tier, r)
 	n := 150
 	if tier == "thorough" {
 		n = 3000
